@@ -6,9 +6,11 @@
 (* Monitor.tla evaluated on the transcription's own outputs.                *)
 EXTENDS Monitor
 
-CONSTANTS W, AccN, MaxArr, MaxT, REPS, PsFree, InitSets
-VARIABLES s, o, obs, act
-vars == <<s, o, obs, act>>
+CONSTANTS W, AccN, MaxArr, MaxT, REPS, PsFree, InitSets,
+          Staged      \* TRUE (script generation by simulation only): the kind of the next action is drawn
+                      \* first, so that random behaviours are not dominated by the many arrival variants
+VARIABLES s, o, obs, act, ph
+vars == <<s, o, obs, act, ph>>
 View == <<s, o, obs>>
 
 Act(a, nm, p, v, e, r, k, S) ==
@@ -27,6 +29,7 @@ Acts ==
     \cup (IF s.now < MaxT THEN {Act("tick", "", "", FALSE, "", 0, "", {})} ELSE {})
     \cup {Act("checkpeers", "", "", FALSE, "", 0, "", S) : S \in (SUBSET PEERS) \ {{}}}
     \cup {Act("checkall", "", "", FALSE, "", 0, "", {})}
+    \cup (IF s.ps.kind = "nil" THEN {} ELSE {Act("watch", "", "", FALSE, "", 0, "", {})})
 
 Init ==
     /\ \E ps \in {[kind |-> "nil", set |-> {}]} \cup {[kind |-> "set", set |-> S] : S \in InitSets} :
@@ -34,6 +37,7 @@ Init ==
           /\ o = ObsInit(AccN, ps)
     /\ obs = ObsOf(s, <<>>)
     /\ act = NoAct
+    /\ ph = ""
 
 Step(a, b) ==
     LET r == Apply(s, a, [pr \in Pairs |-> b])
@@ -41,9 +45,13 @@ Step(a, b) ==
        /\ obs' = ObsOf(r.s, r.alerts)
        /\ o' = ObsStep(o, a, obs.n, r.alerts)
        /\ act' = a
+       /\ ph' = ""
 
-Next == \E a \in Acts :
-          IF a.a \in {"checkpeers", "checkall"} THEN \E b \in BOOLEAN : Step(a, b) ELSE Step(a, TRUE)
+Do(a) == IF a.a \in {"checkpeers", "checkall", "watch"} THEN \E b \in BOOLEAN : Step(a, b) ELSE Step(a, TRUE)
+Next == IF ~Staged THEN \E a \in Acts : Do(a)
+        ELSE IF ph = "" THEN /\ ph' \in {a.a : a \in Acts}
+                             /\ UNCHANGED <<s, o, obs, act>>
+        ELSE \E a \in {x \in Acts : x.a = ph} : Do(a)
 Spec == Init /\ [][Next]_vars
 
 InvAtMostOne            == AtMostOne(obs)
